@@ -719,9 +719,30 @@ class GBNFCompiler:
 
         # Build field rules
         field_rule_names: list[str] = []
+        # Rule names already taken: the structural rules emitted below, then each field rule.
+        # Distinct fields may sanitize alike (STATUS/Status, A-B/A_B) or to a structural
+        # name (CONTENT -> content); GBNF does not allow a rule to be defined twice.
+        taken_rule_names = {
+            "ws",
+            "field",
+            "content",
+            "document",
+            "root",
+            "envelope-start",
+            "envelope-end",
+            "meta-block",
+            "meta-content",
+            "meta-field",
+        }
 
         for field_name, field_def in schema.fields.items():
-            rule_name = self._sanitize_rule_name(field_name)
+            base_rule_name = self._sanitize_rule_name(field_name)
+            rule_name = base_rule_name
+            suffix = 1
+            while rule_name in taken_rule_names:
+                suffix += 1
+                rule_name = f"{base_rule_name}-{suffix}"
+            taken_rule_names.add(rule_name)
             field_rule_names.append(rule_name)
 
             # Get constraint pattern
